@@ -384,7 +384,8 @@ func ledgerEngine(prop string, known []KnownFinding) *engine {
 		profName:   func(batch int) string { return profs[batch%len(profs)].Name },
 		fill:       func(rf *ReplayFile, in any) { rf.Input = in.(*Input) },
 		shrink: func(t *testing.T, in any, sig string) (any, int) {
-			return shrinkInput(in.(*Input), func(c *Input) bool { return hasSig(Run(t, c, prop, false), sig) }, 25*time.Second)
+			return shrinkInput(in.(*Input), func(c *Input) bool { return hasSig(Run(t, c, prop, false), sig) },
+				func(c *Input) []int { r := Run(t, c, prop, false); defer r.Release(); return r.Decisions }, 25*time.Second)
 		},
 	}
 }
@@ -463,7 +464,8 @@ func lockerEngine() *engine {
 		profName: func(int) string { return "locker" },
 		fill:     func(rf *ReplayFile, in any) { rf.Locker = in.(*LockerIn) },
 		shrink: func(t *testing.T, in any, sig string) (any, int) {
-			return shrinkLockerIn(in.(*LockerIn), func(c *LockerIn) bool { return hasSig(RunLocker(t, c, false), sig) }, 15*time.Second)
+			return shrinkLockerIn(in.(*LockerIn), func(c *LockerIn) bool { return hasSig(RunLocker(t, c, false), sig) },
+				func(c *LockerIn) []int { return RunLocker(t, c, false).Decisions }, 15*time.Second)
 		},
 	}
 }
@@ -489,7 +491,7 @@ func diffEngine() *engine {
 		profName: func(int) string { return "preview-diff" },
 		fill:     func(rf *ReplayFile, in any) { rf.Diff = in.(*DiffIn) },
 		shrink: func(t *testing.T, in any, sig string) (any, int) {
-			out, n := shrinkInput(in.(*DiffIn).Plus, func(c *Input) bool { return hasSig(RunDiff(t, &DiffIn{Plus: c}, false), sig) }, 25*time.Second)
+			out, n := shrinkInput(in.(*DiffIn).Plus, func(c *Input) bool { return hasSig(RunDiff(t, &DiffIn{Plus: c}, false), sig) }, nil, 25*time.Second)
 			return &DiffIn{Plus: out}, n
 		},
 	}
